@@ -333,6 +333,17 @@ func (e *Env) indexSV(a, i SV, x *Expr) (SV, error) {
 			}
 		}
 		return SV{T: v.c.Select(a.T, i.T), GoT: et}, nil
+	case a.GoT != nil && a.T.Sort.Kind == KData && len(a.T.Sort.Fields) == 2 && a.T.Sort.Fields[0].Name == "dom" && a.T.Sort.Fields[1].Name == "val":
+		// Go map value (dom, val): m[k] is the value the engine's map model yields for a lookup, i.e. ite(k in dom, val[k], zero)
+		mt, ok := a.GoT.Underlying().(*types.Map)
+		if !ok {
+			break
+		}
+		if i.T.Sort != a.T.Sort.Fields[0].Sort.Key {
+			return SV{}, serr("map key sort %s does not match %s in %s", i.T.Sort.Name, a.T.Sort.Fields[0].Sort.Key.Name, x)
+		}
+		es := a.T.Sort.Fields[1].Sort.Elem
+		return SV{T: v.c.Ite(v.c.Select(v.c.FieldOf(a.T, 0), i.T), v.c.Select(v.c.FieldOf(a.T, 1), i.T), v.tm.ZeroOf(es)), GoT: mt.Elem()}, nil
 	}
 	if isMapSort(a.T.Sort) {
 		// Go map lookup m[k]: the stored value, or the zero value of the element type when k is absent
